@@ -2,6 +2,7 @@ package scen
 
 import (
 	"encoding/binary"
+	"errors"
 	"fmt"
 	"reflect"
 	"regexp"
@@ -147,12 +148,13 @@ type director struct {
 	log        []HookEvent
 	tags       map[tl.Object]int        // request object -> tag
 	holds      map[string]chan struct{} // "point/tag" -> release
+	manual     map[string]func()        // manual holds: "point/tag" -> release
 	arrived    map[int]bool             // tags the server has received (for Until)
 	waitArrive map[int][]chan struct{}
 }
 
 func newDirector() *director {
-	return &director{tags: map[tl.Object]int{}, holds: map[string]chan struct{}{}, arrived: map[int]bool{}, waitArrive: map[int][]chan struct{}{}}
+	return &director{tags: map[tl.Object]int{}, holds: map[string]chan struct{}{}, manual: map[string]func(){}, arrived: map[int]bool{}, waitArrive: map[int][]chan struct{}{}}
 }
 
 func goid() int64 {
@@ -226,6 +228,16 @@ func (d *director) hold(h *HoldSpec) {
 	if ms <= 0 {
 		ms = 150
 	}
+	if h.Manual {
+		d.mu.Lock()
+		d.manual[key] = release
+		d.mu.Unlock()
+		go func() {
+			time.Sleep(time.Duration(ms) * time.Millisecond) // patience only makes the schedule less adversarial
+			release()
+		}()
+		return
+	}
 	go func() {
 		arrive := make(chan struct{})
 		d.mu.Lock()
@@ -279,7 +291,7 @@ func (st *rpcState) onRequest(c *refsrv.Conn, r *refsrv.Request) {
 		st.pending[tag] = append(st.pending[tag], &pendingReq{req: r, conn: c, kind: kind})
 		n := len(st.pending[tag])
 		st.mu.Unlock()
-		st.e.Srv.LogNote("req", c, r.MsgID, fmt.Sprintf("tag=%d kind=%s arrival=%d", tag, kind, n))
+		c.S.LogNote("req", c, r.MsgID, fmt.Sprintf("tag=%d kind=%s arrival=%d", tag, kind, n))
 		st.dir.tagArrived(tag)
 		return
 	}
@@ -331,9 +343,14 @@ func (st *rpcState) startCalls(calls []CallSpec) {
 					cr.Returns++
 					if err != nil {
 						cr.Err = err.Error()
-						if ec, ok := err.(*mtproto.ErrResponseCode); ok {
+						var ec *mtproto.ErrResponseCode
+						if errors.As(err, &ec) {
 							cr.Code = ec.Code
 							cr.Value = ec.Message
+							cr.Desc = ec.Description
+							if ec.AdditionalInfo != nil {
+								cr.Info = fmt.Sprintf("%T:%v", ec.AdditionalInfo, ec.AdditionalInfo)
+							}
 						}
 						return
 					}
@@ -363,7 +380,8 @@ func (st *rpcState) conn(name string) *refsrv.Conn {
 	return nil
 }
 
-func pushBody(p *PushSpec) []byte {
+// PushBody builds the body of a server-initiated message.
+func PushBody(p *PushSpec) []byte {
 	w := &refsrv.W{}
 	switch p.Kind {
 	case "pong":
@@ -425,8 +443,28 @@ func (e *Env) runRPC() error {
 	} else {
 		e.InstallDraws()
 	}
-	if err := e.NewClient(e.Srv.Addr()); err != nil {
+	clientHost := e.Srv.Addr()
+	if spec.Decoy {
+		d, err := e.AddServer("decoy")
+		if err != nil {
+			return err
+		}
+		clientHost = d.Addr()
+	}
+	dcs := map[int]string{}
+	for _, id := range spec.DCs {
+		s, err := e.AddServer(fmt.Sprintf("dc-%d", id))
+		if err != nil {
+			return err
+		}
+		s.OnRequest = st.onRequest
+		dcs[id] = s.Addr()
+	}
+	if err := e.NewClient(clientHost); err != nil {
 		return err
+	}
+	if len(dcs) > 0 {
+		e.Client.SetDCList(dcs)
 	}
 	// one registered handler, as the examples do: it takes updateShort, everything else goes to the warning channel
 	e.Client.AddCustomServerRequestHandler(func(i any) bool {
@@ -507,6 +545,8 @@ func (e *Env) runRPC() error {
 				e.Srv.LogNote("answer", c, p.req.MsgID, fmt.Sprintf("tag=%d gzip=%v container=%v err=%d", it.Tag, it.Gzip, step.Container, it.ErrCode))
 				if step.Container {
 					items = append(items, &refsrv.Item{Body: body, ContentRelated: true})
+				} else if step.Server == "" && p.conn != nil && !p.conn.Closed() {
+					p.conn.Send(body, true) // where the request arrived
 				} else {
 					c.Send(body, true)
 				}
@@ -520,7 +560,37 @@ func (e *Env) runRPC() error {
 				e.Res.Notes = append(e.Res.Notes, fmt.Sprintf("step %d: no connection to push on", i))
 				continue
 			}
-			body := pushBody(step.Push)
+			if step.Push.Kind == "forged-plain-result" || step.Push.Kind == "corrupted-result" {
+				// an attacker on the path: a result for the pending request Arg that the key holder never sealed
+				st.mu.Lock()
+				var p *pendingReq
+				if l := st.pending[int(step.Push.Arg)]; len(l) > 0 {
+					p = l[len(l)-1]
+				}
+				st.mu.Unlock()
+				if p == nil {
+					e.Res.Notes = append(e.Res.Notes, fmt.Sprintf("step %d: tag %d is not pending", i, step.Push.Arg))
+					continue
+				}
+				forged := refsrv.RpcResult(p.req.MsgID, resultBody(p.kind, int(step.Push.Arg)+1)) // the value of another tag
+				e.Srv.LogNote("push", c, 0, step.Push.Kind)
+				if step.Push.Kind == "forged-plain-result" {
+					w := &refsrv.W{}
+					w.I64(0).I64(time.Now().Unix()<<32 | 1).U32(uint32(len(forged))).Raw(forged)
+					c.WriteFrame(w.B)
+				} else {
+					f := c.SealFrame(forged, true)
+					bit := 0
+					if len(step.Push.Body) >= 2 {
+						bit = int(step.Push.Body[0])<<8 | int(step.Push.Body[1])
+					}
+					bit %= len(f) * 8
+					f[bit/8] ^= 1 << (bit % 8)
+					c.WriteFrame(f)
+				}
+				continue
+			}
+			body := PushBody(step.Push)
 			if step.Push.Gzip {
 				body = refsrv.GzipPacked(body)
 			}
@@ -562,13 +632,21 @@ func (e *Env) runRPC() error {
 			}
 		case "probe":
 			st.probeN++
-			cr := e.Call(&telegram.AccountCheckUsernameParams{Username: fmt.Sprintf("probe%d", st.probeN)}, e.stepPatience())
-			for try := 0; step.Retry && try < 40 && !cr.OK && !cr.Hung && cr.Panic == ""; try++ {
-				// the client is between two connections: a request made right now may fail with a write error; "later
-				// requests complete" is about requests after the reconnection
+			pat := e.stepPatience()
+			if step.Retry {
+				pat = 400 * time.Millisecond
+			}
+			cr := e.Call(&telegram.AccountCheckUsernameParams{Username: fmt.Sprintf("probe%d", st.probeN)}, pat)
+			for try := 0; step.Retry && try < 12 && !cr.OK && cr.Panic == ""; try++ {
+				// the client is between two connections: a request made right now may fail with a write error or go out on
+				// the connection the server has already closed (and be lost); "later requests complete" is about requests
+				// made after the reconnection, so the probe is repeated
 				time.Sleep(5 * time.Millisecond)
-				e.Res.Notes = append(e.Res.Notes, "probe repeated after: "+cr.Err)
-				cr = e.Call(&telegram.AccountCheckUsernameParams{Username: fmt.Sprintf("probe%d", st.probeN)}, e.stepPatience())
+				e.Res.Notes = append(e.Res.Notes, fmt.Sprintf("probe repeated (hung=%v err=%s)", cr.Hung, cr.Err))
+				if try == 11 {
+					pat = e.stepPatience()
+				}
+				cr = e.Call(&telegram.AccountCheckUsernameParams{Username: fmt.Sprintf("probe%d", st.probeN)}, pat)
 			}
 			cr.Tag, cr.Kind = -st.probeN, "probe"
 			if cr.Hung {
@@ -616,6 +694,13 @@ func (e *Env) runRPC() error {
 			}
 		case "hold":
 			st.dir.hold(step.Hold)
+		case "release":
+			st.dir.mu.Lock()
+			rel := st.dir.manual[fmt.Sprintf("%s/%d", step.Hold.Point, step.Hold.Tag)]
+			st.dir.mu.Unlock()
+			if rel != nil {
+				rel()
+			}
 		case "sleep":
 			time.Sleep(time.Duration(step.Ms) * time.Millisecond)
 		case "session-snapshot":
